@@ -198,8 +198,10 @@ func (dl *datalog) del(key []byte) error {
 }
 
 func (dl *datalog) writeRecord(data []byte, rt recordType) (uint16, uint32, error) {
-	if dl.curSeg.meta.Full || dl.curSeg.size+int64(len(data)) > int64(dl.opts.maxSegmentSize) {
+	if dl.curSeg.meta.Full || (!dl.curSeg.empty() && dl.curSeg.size+int64(len(data)) > int64(dl.opts.maxSegmentSize)) {
 		// Current segment is full, create a new one.
+		// An empty segment is never sealed: a record that exceeds the segment capacity
+		// is written to a segment of its own.
 		dl.curSeg.meta.Full = true
 		if err := dl.swapSegment(); err != nil {
 			return 0, 0, err
